@@ -288,6 +288,9 @@ pub enum Ins {
     Block(BT),
     Loop(BT),
     If(BT),
+    /// `try_table` with `catch <tag> <label>` (Some(tag)) / `catch_all <label>` (None) clauses;
+    /// only generated for executed programs
+    TryTable(BT, Vec<(Option<u32>, u32)>),
     Else,
     End,
     Br(u32),
@@ -346,6 +349,17 @@ impl Ins {
             Ins::Block(b) => E::Block(b.enc()),
             Ins::Loop(b) => E::Loop(b.enc()),
             Ins::If(b) => E::If(b.enc()),
+            Ins::TryTable(b, cs) => E::TryTable(
+                b.enc(),
+                std::borrow::Cow::Owned(
+                    cs.iter()
+                        .map(|(t, l)| match t {
+                            Some(t) => wasm_encoder::Catch::One { tag: *t, label: *l },
+                            None => wasm_encoder::Catch::All { label: *l },
+                        })
+                        .collect(),
+                ),
+            ),
             Ins::Else => E::Else,
             Ins::End => E::End,
             Ins::Br(d) => E::Br(*d),
@@ -429,6 +443,20 @@ impl Ins {
         match op {
             Operator::Unreachable => Ins::Unreachable,
             Operator::Throw { tag_index } => Ins::Throw(*tag_index),
+            Operator::TryTable { try_table } => {
+                let mut cs = vec![];
+                for c in &try_table.catches {
+                    match c {
+                        wasmparser::Catch::One { tag, label } => cs.push((Some(*tag), *label)),
+                        wasmparser::Catch::All { label } => cs.push((None, *label)),
+                        _ => return unk(),
+                    }
+                }
+                match BT::from_parser(try_table.ty) {
+                    Some(b) => Ins::TryTable(b, cs),
+                    None => unk(),
+                }
+            }
             Operator::Nop => Ins::Nop,
             Operator::Drop => Ins::Drop,
             Operator::Select => Ins::Select,
@@ -594,6 +622,10 @@ impl Ins {
         c
     }
 
+    /// opens a control frame that a later `end` closes (block, loop, if, try_table)
+    pub fn opens_frame(&self) -> bool {
+        matches!(self, Ins::Block(_) | Ins::Loop(_) | Ins::If(_) | Ins::TryTable(..))
+    }
     pub fn is_block_opener(&self) -> bool {
         matches!(self, Ins::Block(_) | Ins::Loop(_) | Ins::If(_))
     }
